@@ -425,4 +425,45 @@ func c19(p *model.Prog, r *report.Result) {
 	if nTmpl < 6 {
 		r.Bad("C19.R3", "floor", "", "fewer than 6 SDP media templates found")
 	}
+	r.Rule("C19.R4", "parameter sets and AudioSpecificConfig kept by the remuxers (Rtmp2RtspRemuxer.sps/pps/vps/asc, Rtmp2MpegtsRemuxer.spspps, AvPacket2RtmpRemuxer.sps/pps/vps) are copies, never slices of the caller's message or packet buffer (same propagation as C01.R7, from the RTMP and the AvPacket entry points)")
+	retentionRule(p, r, "C19.R4", []retRoot{{p.Method("pkg/logic", "Group", "OnReadRtmpAvMsg"), 1}, {p.Method("pkg/logic", "Group", "OnAvPacket"), 1}, {p.Method("pkg/logic", "CustomizePubSessionContext", "FeedAvPacket"), 1}}, 60)
+	r.Rule("C19.R5", "in avc.parseSpsGamma the scaling-list size is 16 for list indices 0..5 and 64 from index 6 on (ITU-T H.264 7.3.2.1.1: lists 0-5 are 4x4, 6-11 are 8x8): the comparison that selects 64 is false at 5 and true at 6")
+	gamma := p.Func("pkg/avc", "parseSpsGamma")
+	found := false
+	model.EachInstr(gamma, func(in ssa.Instruction) {
+		ph, ok := in.(*ssa.Phi)
+		if !ok || len(ph.Edges) != 2 {
+			return
+		}
+		k0, ok0 := model.ConstInt(ph.Edges[0])
+		k1, ok1 := model.ConstInt(ph.Edges[1])
+		if !ok0 || !ok1 || !((k0 == 16 && k1 == 64) || (k0 == 64 && k1 == 16)) {
+			return
+		}
+		// the If that selects between the two constants
+		for i, pred := range ph.Block().Preds {
+			kk := k0
+			if i == 1 {
+				kk = k1
+			}
+			if kk != 64 {
+				continue
+			}
+			// pred is the block that assigns 64; its dominating guard
+			for _, g := range model.Guards(pred) {
+				_, k, op, right, isCmp := constCmp(g.Cond)
+				if !isCmp {
+					continue
+				}
+				found = true
+				at5 := cmpAt(op, 5, k, right) == g.Polarity
+				at6 := cmpAt(op, 6, k, right) == g.Polarity
+				r.Check(!at5 && at6, "C19.R5", fkey(gamma, "scaling-list", "size-boundary"), p.InstrPos(g.If), "64 entries from list 6 on", "the 8x8 scaling lists start at the wrong index: list 6 (or 5) is read with the wrong number of entries, every following SPS field is mis-parsed and the reported dimensions are wrong")
+				break
+			}
+		}
+	})
+	if !found {
+		r.Bad("C19.R5", fkey(gamma, "scaling-list", "floor"), p.Pos(gamma.Pos()), "the 16/64 scaling-list size selection was not found")
+	}
 }
